@@ -1,5 +1,6 @@
 #![allow(clippy::needless_range_loop)]
 pub mod gen;
 pub mod mon;
+pub mod poseidon_consts;
 pub mod props;
 pub mod refmodel;
